@@ -658,6 +658,10 @@ class PathEngine:
         if raises is not None:
             for kind in raises(ev, cfg):
                 raise_to(kind, None, items=items2 + [("ev", PEvent("exc", node, value=kind, label=label))])
+        if targets and all(t.kind == "repo" and t.func is not None and getattr(t.func.node, "returns", None) is not None and ast.unparse(t.func.node.returns).endswith("NoReturn") for t in targets):
+            # the callee never returns normally
+            raise_to("NoReturn", None, items=items2)
+            return
         env2 = dict(env)
         env2[("$r", id(call))] = res
         store2 = store
